@@ -148,8 +148,35 @@ pub async fn quirk_sig(got: &BTreeSet<i64>, exp: &BTreeSet<i64>, pred: &Pred, sq
     }
     match df.ids_where_full_sql(sql).await {
         Ok(b) if &b == got => Some(DF_NOT_IN_SIG),
-        _ => None,
+        _ => {
+            // DataFusion's own pipeline coerces before simplifying and may not merge the same lists
+            // as Lance: fall back to "only extra rows, each with a NULL filter value and NULL in a
+            // column with mergeable in-lists"
+            let nulls = null_rows_of_merged_inlists(pred, m);
+            if exp.is_subset(got) && got.difference(exp).all(|i| nulls.contains(i)) {
+                Some(DF_NOT_IN_SIG)
+            } else {
+                None
+            }
+        }
     }
+}
+
+/// Fallback attribution to the in-list rewrite family without consulting DataFusion's complete
+/// pipeline (which coerces first and may therefore not merge the same lists as Lance): every extra
+/// row is NULL in a column with two mergeable equality / IN leaves and the filter evaluates to NULL
+/// (not FALSE) for it — the rewrite `x IN A AND x IN B -> false` / `x NOT IN A OR x NOT IN B -> true`
+/// dropped the NULL-ness of x.
+pub fn null_rows_of_merged_inlists(pred: &Pred, m: &Model) -> BTreeSet<i64> {
+    let cols = pred.mergeable_inlist_columns(false);
+    if cols.is_empty() {
+        return BTreeSet::new();
+    }
+    m.rows
+        .iter()
+        .filter(|(_, r)| cols.iter().any(|c| r[*c].is_null()) && eval(pred, &m.cols, r).is_none())
+        .map(|(i, _)| *i)
+        .collect()
 }
 
 pub const COERCE_SIG: &str = "lance-simplifies-before-type-coercion-inlist-merge-wrong";
@@ -393,7 +420,8 @@ pub fn run(args: &Args) -> i32 {
     )
     .with_min_nontrivial(20);
     let threads = n_threads();
-    let max_cases: u64 = args.tier.pick(4000, 400_000);
+    // quick: a fixed case set per seed (finishes well inside the budget on 16 cores; the time check is only a safety net)
+    let max_cases: u64 = args.tier.pick(600, 400_000);
     let queries_per_table = args.tier.pick(24, 60);
     let max_rows = args.tier.pick(300, 1500);
     let next = AtomicU64::new(0);
@@ -418,7 +446,7 @@ pub fn run(args: &Args) -> i32 {
                 }
                 case = c;
             }
-            if case >= max_cases || !report.time_left() {
+            if (only_case.is_none() && case >= max_cases) || !report.time_left() {
                 break;
             }
             let mut rng = Rng::for_case(args.seed, case);
@@ -621,6 +649,15 @@ pub fn run(args: &Args) -> i32 {
                                             coerce_count = Some(got_set.len());
                                         }
                                     }
+                                    if sig != DF_NOT_IN_SIG && sig != COERCE_SIG {
+                                        let nulls = null_rows_of_merged_inlists(&pred, m);
+                                        let extras: Vec<i64> = got_set.difference(&ids).copied().collect();
+                                        let missing_n = if q.limit.is_some() || q.offset.is_some() { 0 } else { ids.difference(&got_set).count() };
+                                        if !extras.is_empty() && missing_n == 0 && order_idx.is_none() && extras.iter().all(|i| nulls.contains(i)) {
+                                            sig = DF_NOT_IN_SIG.to_string();
+                                            quirk_count = Some(usize::MAX); // count classified below by range
+                                        }
+                                    }
                                     // narrow class: on a legacy table the same query with use_stats(false)
                                     // conforms => the deviation is caused by statistics-based pruning
                                     if tbl.version == LanceFileVersion::Legacy && knobs.use_stats != Some(false) && !v.sig.starts_with("limit-zero") {
@@ -692,6 +729,9 @@ pub fn run(args: &Args) -> i32 {
                             }
                         }
                     }
+                    // a count that exceeds the reference by at most the number of NULL-filter rows of merged in-lists
+                    let null_merge_rows = null_rows_of_merged_inlists(&pred, m).len();
+                    let count_in_null_range = |n: usize| null_merge_rows > 0 && n > ids.len() && n <= ids.len() + null_merge_rows;
                     if executed && !selftest {
                         let ck = Knobs::random(&mut rng);
                         match run_count(&tbl.ds, &q, &ck).await {
@@ -699,7 +739,7 @@ pub fn run(args: &Args) -> i32 {
                                 report.count("count_rows_checked", 1);
                                 if n as usize != ids.len() {
                                     report.violation(
-                                        &(if quirk_count == Some(n as usize) { DF_NOT_IN_SIG.to_string() } else if coerce_count == Some(n as usize) { COERCE_SIG.to_string() } else { legacy_count_sig("count-rows-differs-from-result", stats_off_count_ok && ck.use_stats != Some(false)) }),
+                                        &(if quirk_count == Some(n as usize) || count_in_null_range(n as usize) { DF_NOT_IN_SIG.to_string() } else if coerce_count == Some(n as usize) { COERCE_SIG.to_string() } else { legacy_count_sig("count-rows-differs-from-result", stats_off_count_ok && ck.use_stats != Some(false)) }),
                                         &format!("Scanner::count_rows = {n}, reference/result = {}", ids.len()),
                                         witness(&ck, json!({"count": n, "expected": ids.len()})),
                                     );
@@ -715,7 +755,7 @@ pub fn run(args: &Args) -> i32 {
                             Ok(n) => {
                                 if n != ids.len() {
                                     report.violation(
-                                        &(if quirk_count == Some(n) { DF_NOT_IN_SIG.to_string() } else if coerce_count == Some(n) { COERCE_SIG.to_string() } else { legacy_count_sig("dataset-count-rows-differs-from-result", stats_off_count_ok) }),
+                                        &(if quirk_count == Some(n) || count_in_null_range(n) { DF_NOT_IN_SIG.to_string() } else if coerce_count == Some(n) { COERCE_SIG.to_string() } else { legacy_count_sig("dataset-count-rows-differs-from-result", stats_off_count_ok) }),
                                         &format!("Dataset::count_rows = {n}, reference/result = {}", ids.len()),
                                         witness(&Knobs::default(), json!({"count": n, "expected": ids.len()})),
                                     );
